@@ -81,9 +81,36 @@ def _flat_kinds(cases: list[Case]) -> set[str]:
     return s
 
 
-def _ends_in_raise(fn: FuncInfo) -> bool:
+def _ends_in_raise(fn: FuncInfo, ctx: Optional[Ctx] = None, subject: Optional[str] = None) -> bool:
     last = fn.node.body[-1]
-    return isinstance(last, ast.Raise)
+    if isinstance(last, ast.Raise):
+        return True
+    if ctx is None or subject is None:
+        return False
+    # the raise may sit in the final `else` of the dispatch chain: when no case test holds, no path reaches a normal exit
+    g = ctx.cfg(fn)
+    cases = case_table(ctx, fn, subject)
+    if not cases:
+        return False
+    case_tests = {id(c.test) for c in cases}
+    seen = set()
+    first = [n.id for n in g.nodes if n.kind == 'test' and n.ast is cases[0].test]
+    if not first:
+        return False
+    stack = [first[0]]      # what precedes the dispatch (argument defaults, the cycle guard) is not part of the table
+    while stack:
+        n = stack.pop()
+        if n in seen:
+            continue
+        seen.add(n)
+        node = g.node(n)
+        for (t, lab) in g.succ.get(n, []):
+            if lab == 'exc':
+                continue
+            if node.kind == 'test' and id(node.ast) in case_tests and lab == 'true':
+                continue
+            stack.append(t)
+    return g.exit not in seen and any(isinstance(x, ast.Raise) for x in walk_local(fn.node))
 
 
 def _recursion_complete(fn: FuncInfo, body: list, subject: str, over_values: bool) -> tuple[bool, str]:
@@ -231,6 +258,20 @@ def discover_table(ctx: Ctx):
         yield ctx.ob('C02.DISCOVER-TABLE', not md, ftp, ftp.node, 'dependency search not memoised by equality',
                      '' if not md else f'dependency search is memoised ({md}): equal-but-distinct values share a result', construct='memo')
         return
+    rets_c = [r for r in walk_local(gdd.node) if isinstance(r, ast.Return) and r.value is not None]
+    if len(rets_c) == 1 and isinstance(rets_c[0].value, ast.Call) and (dotted(rets_c[0].value.func) or '').split('.')[-1] in ('OrderedSet', 'list', 'tuple') \
+            and len(rets_c[0].value.args) == 1 and isinstance(rets_c[0].value.args[0], (ast.ListComp, ast.GeneratorExp)):
+        # `OrderedSet([d for field in fields(task) for d in find_tasks_in_param(getattr(task, field.name))])`
+        from .runners import _comp_complete
+        okc = _comp_complete(ctx, gdd, rets_c[0].value.args[0], tparam)
+        yield ctx.ob('C02.DISCOVER-TABLE', okc, gdd, rets_c[0], 'all fields(task) searched',
+                     '' if okc else 'get_direct_dependencies does not iterate all fields(task) (sliced, filtered or cut short)')
+        yield ctx.ob('C02.DISCOVER-TABLE', okc, gdd, rets_c[0], 'every task found in every field is added',
+                     '' if okc else 'a task found in a field value may not be added to the dependency set')
+        md = memo_decorators(ftp) + memo_decorators(gdd)
+        yield ctx.ob('C02.DISCOVER-TABLE', not md, ftp, ftp.node, 'dependency search not memoised by equality',
+                     '' if not md else f'dependency search is memoised ({md}): equal-but-distinct values share a result', construct='memo')
+        return
     loops = [lp for lp in walk_local(gdd.node) if isinstance(lp, ast.For)]
     fl = [lp for lp in loops if isinstance(lp.iter, ast.Call) and dotted(lp.iter.func) == 'fields' and len(lp.iter.args) == 1
           and isinstance(lp.iter.args[0], ast.Name) and lp.iter.args[0].id == 'task']
@@ -333,8 +374,8 @@ def type_tables(ctx: Ctx):
         miss = need - have
         yield ctx.ob('C15.TYPE-TABLES', not miss, fn, fn.node, f'{name} handles {sorted(need)}',
                      '' if not miss else f'{name} has no case for {sorted(miss)}, which task construction produces', construct=f'table:{name}')
-    for fn in (ipv, ftp, sv):
-        ok = _ends_in_raise(fn)
+    for fn, subj_ in ((ipv, 'value'), (ftp, 'param_value'), (sv, 'value')):
+        ok = _ends_in_raise(fn, ctx, subj_)
         yield ctx.ob('C15.TYPE-TABLES', ok, fn, fn.node.body[-1], f'{fn.name} ends in a raise for anything else',
                      '' if ok else f'{fn.name} falls through without raising for unsupported values', construct=f'raise:{fn.name}')
 
@@ -511,11 +552,15 @@ def hooks_per_type(ctx: Ctx):
                 and isinstance(a.targets[0].value, ast.Name) and a.targets[0].value.id == cparam):
             continue
         v = a.value
-        if not isinstance(v, ast.Call) or dotted(v.func) in ('property', 'dataclass', 'TaskInfo'):
-            continue
-        qs = ctx.P.resolve_call(v, deco)
-        if not any(q.startswith(f'{PKG}.') for q in qs) or any(q in ctx.P.classes for q in qs):
-            continue
+        local_defs = {x.name for x in walk_local(deco.node) if isinstance(x, (ast.FunctionDef, ast.AsyncFunctionDef))}
+        if isinstance(v, ast.Name) and v.id in local_defs:
+            pass      # a closure defined inside the decorator (a factory the canonicalisation inlined, or written in place)
+        else:
+            if not isinstance(v, ast.Call) or dotted(v.func) in ('property', 'dataclass', 'TaskInfo'):
+                continue
+            qs = ctx.P.resolve_call(v, deco)
+            if not any(q.startswith(f'{PKG}.') for q in qs) or any(q in ctx.P.classes for q in qs):
+                continue
         n += 1
         ok = g.on_all_paths_to_exit(g.entry, g.nodes_of(a) or [g.primary(a)], exc=False)
         yield ctx.ob('C15.HOOKS-PER-TYPE', ok, deco, a, f'{cparam}.{a.targets[0].attr} (built per class) is installed on every decorated class',
@@ -824,6 +869,8 @@ def field_cover(ctx: Ctx):
     for d in lits:
         m = {k.value: v for k, v in zip(d.keys, d.values) if isinstance(k, ast.Constant)}
         cv = m.get('__class__')
+        if isinstance(cv, ast.Name):
+            cv = expand_locals(gst, ctx.rd(st), cv, gst.primary(d))
         if isinstance(cv, ast.Call) and isinstance(cv.func, ast.Attribute) and cv.func.attr == 'serialize_class' and cv.args \
                 and src(cv.args[0]) in (f'{tparam}.__class__', f'type({tparam})'):
             okc = True
@@ -1126,11 +1173,19 @@ def roundtrips(ctx: Ctx):
             wkeys |= {k.value for k in n.keys if isinstance(k, ast.Constant)}
     skip = set()
     for n in walk_local(dt.node):
-        if isinstance(n, ast.Compare) and len(n.ops) == 1 and isinstance(n.ops[0], ast.In) and isinstance(n.comparators[0], (ast.Set, ast.Tuple, ast.List)):
+        if isinstance(n, ast.Compare) and len(n.ops) == 1 and isinstance(n.ops[0], (ast.In, ast.NotIn)) and isinstance(n.comparators[0], (ast.Set, ast.Tuple, ast.List)):
             vals = {e.value for e in n.comparators[0].elts if isinstance(e, ast.Constant)}
             if vals & wkeys:
                 skip = vals
+                skip_test = n
     oks = skip == wkeys and bool(wkeys)
+    if oks:
+        # polarity: a parameter is stored only for keys outside the marker set (`if key in M: continue` or `if key not in M: ...`)
+        for lp0 in [lp for lp in walk_local(dt.node) if isinstance(lp, ast.For) and any(x is skip_test for x in ast.walk(lp))]:
+            for stn in [x for x in walk_local(lp0) if isinstance(x, ast.Assign) and isinstance(x.targets[0], ast.Subscript)]:
+                c0 = cond_in_loop(ctx, dt, lp0, stn)
+                outside = formula_of(ctx, dt, skip_test) if isinstance(skip_test.ops[0], ast.NotIn) else f_not(formula_of(ctx, dt, skip_test))
+                oks = oks and implies(c0, outside)
     yield ctx.ob('C09.ROUNDTRIPS', oks, dt, dt.node, f'deserialize_task skips exactly the marker keys {sorted(wkeys)}', '' if oks else
                  f'deserialize_task skips {sorted(skip)} but serialize_task writes markers {sorted(wkeys)}', construct='task-markers')
     g = ctx.cfg(dt)
